@@ -394,6 +394,36 @@ def case_zero_smear(c):
     return res
 
 
+def case_exact_symmetry(c):
+    """Exact mirror clause in the dyadic toy geometry (every frequency, width and drift step is exactly representable,
+    so NO pixel is masked): a box / truncated-sinc2 signal of whole-channel width centred on a channel, drifting by a
+    whole number of channels per step, must be the exact mirror image of the same signal with the opposite drift -- a
+    pixel lying exactly on a profile edge is treated the same way on both sides, whichever way that is."""
+    viol = []
+    outs = []
+    for sign in (1, -1):
+        fr = _mk(c)
+        f_start, drift, width = _inputs(fr, c, drift_ch=sign * c['drift'])
+        try:
+            outs.append(np.asarray(_helper(fr, c, f_start, drift, width, c['smear'])))
+        except Exception as e:
+            viol.append({'site': SITE, 'failure': 'raised[exact_symmetry]', 'detail': '%s: %s' % (type(e).__name__, e)})
+            return {'viol': viol}
+    M = int(round(2 * c['pos']))
+    cols = np.array([j for j in range(FCHANS) if 0 <= M - j < FCHANS], dtype=int)
+    Hp, Hm = outs[0][:, cols], outs[1][:, M - cols]
+    if not np.array_equal(Hp, Hm):
+        j = _first(Hp != Hm)
+        viol.append({'site': SITE, 'failure': 'mirror_mismatch[exact]',
+                     'detail': 'dyadic geometry, %s width %g ch, start channel %g, drift +/-%g ch/step, smear=%s: drift +d gives %r at (t=%d, ch=%d), '
+                               'drift -d gives %r at the mirror channel %d' % (c['prof'], c['width'], c['pos'], c['drift'], c['smear'], Hp[j], j[0],
+                                                                                int(cols[j[1]]), Hm[j], int(M - cols[j[1]]))})
+    res = {'viol': viol, 'outcomes': ['exact/%s/%d' % (c['prof'], int(Hp.any()))]}
+    if Hp.any():
+        res['nontrivial'] = [engine.sha(c)]
+    return res
+
+
 def _tiers(tier):
     if tier == 'thorough':
         return ['toy', 'bl', 'mid'], STYLES, TCHANS_T, DRIFT_T
@@ -427,6 +457,17 @@ def run(ctx):
     for st in ('quantity_scaled', 'np_f32', 'np_i64', 'py_int'):
         cases += [dict(c, style=st) for c in base]
     ctx.pmap(case_const, cases)
+    exact = []
+    for asc in (True, False):
+        for m in (1, 2, 8):
+            for prof in COMPACT:
+                for pos in (24.0, 12.0, 30.5):
+                    for width in (2.0, 4.0, 6.0, 1.0):
+                        for drift in (0.0, 1.0, 2.0, 4.0):
+                            for smear in (False, True):
+                                exact.append(dict(geom='toy', asc=asc, tchans=m, pos=pos, drift=drift, width=width, prof=prof,
+                                                  smear=smear, style='plain', seed=seed))
+    ctx.pmap(case_exact_symmetry, exact)
     mirrors = []
     zs = []
     for geom in geoms:
